@@ -63,6 +63,8 @@ def run(ctx):
             for m in enc.corruptions(c, r_, limit=2):
                 lines.append(m.line)
     lines += ['rp ' + ' '.join(c07.gen_history(rng).steps) for _ in range(800 if ctx.thorough else 100)]
+    # the defragmenter's size limit is behaviour too: a stream reaching the 10 MiB cap, and an over-full first fragment
+    lines += ['rp ' + ' '.join(c07.oversize_history(rng, jump=True).steps), 'rp ' + ' '.join(c07.overfull_first_fragment(rng).steps)]
     lines += ['st %d %d ccs' % (s, d) for s in range(25) for d in (0, 1)]
     lines += ['cs_id %d' % i for i in range(0, 65536, 97)] + ['disp TlsVersion %d' % v for v in range(0x0300, 0x0306)]
     outs = {c: core.run_lines(exes[c], lines) for c in exes}
@@ -84,7 +86,7 @@ def run(ctx):
     ctx.sample({'line': lines[0][:160], 'results': {c: outs[c][0][:160] for c in outs}})
     ctx.sample({'line': lines[-40][:160], 'results': {c: outs[c][-40][:160] for c in outs}})
     return ctx.finish(LEVEL,
-        rule='three compiled configurations of the crate (default = std; --no-default-features = no_std + alloc; std + serialize) driven by the same harness over the assets, every independent-encoder family with corruptions, defragmenter histories, state-machine and registry lookups: outputs must be identical across configurations (and are compared with the Lean model); plus: serialize without std refused by compile_error!, #![forbid(unsafe_code)] present and no unsafe token in src/ or build.rs, compile-time Send + Sync assertions for 90 public types; distinct = (op, outcome shape)',
+        rule='three compiled configurations of the crate (default = std; --no-default-features = no_std + alloc; std + serialize) driven by the same harness over the assets, every independent-encoder family with corruptions, defragmenter histories (incl. a stream reaching the 10 MiB cap), state-machine and registry lookups: outputs must be identical across configurations (and are compared with the Lean model); plus: serialize without std refused by compile_error!, #![forbid(unsafe_code)] present and no unsafe token in src/ or build.rs, compile-time Send + Sync assertions for 90 public types; distinct = (op, outcome shape)',
         checker_cmd='cargo build (x3 configurations + refusal + Send/Sync crate); no Lean obligation is specific to this property',
         assumptions=['the build-status, unsafe-code and Send/Sync clauses are facts established by rustc/cargo and a token scan, not by a theorem; they are preconditions of the tie and are reported as violations of C18 when they fail',
                      'the behavioural clause is a translation validation of each compiled configuration against the one proven model'])
